@@ -26,12 +26,18 @@ pub fn init_process() {
     runner::install_panic_hook();
     track::register_static_image();
     sim::install();
+    interp::warmup();
 }
 
 macro_rules! dispatch {
     ($id:expr, $f:ident $(, $arg:expr)*) => {
         match $id {
+            "C01" => $f::<props::hist::C01>($($arg),*),
+            "C02" => $f::<props::hist::C02>($($arg),*),
+            "C03" => $f::<props::hist::C03>($($arg),*),
             "C04" => $f::<props::c04::C04>($($arg),*),
+            "C06" => $f::<props::hist::C06>($($arg),*),
+            "C09" => $f::<props::hist::C09>($($arg),*),
             "C05" => $f::<props::c05::C05>($($arg),*),
             other => {
                 eprintln!("unknown property {other}");
